@@ -11,6 +11,7 @@ import (
 	"runtime"
 	"sync"
 	"sync/atomic"
+	"syscall"
 	"time"
 )
 
@@ -56,8 +57,12 @@ type Conn struct {
 	// (a peer that reads slowly or not at all); the default is an unbounded buffer.
 	Backpressure int
 	consumed     int
-	rdDeadline   time.Time
-	wrDeadline   time.Time
+	// WriteLimit, when > 0, makes the connection behave like a peer that vanished after that many bytes in total had
+	// been written to it: the Write that crosses the limit is cut short (the bytes before the limit are recorded,
+	// the short count and EPIPE are returned) and every later Write fails.
+	WriteLimit int
+	rdDeadline time.Time
+	wrDeadline time.Time
 }
 
 // SetDeadline, SetReadDeadline and SetWriteDeadline give the connection net.Conn's deadline semantics, so that
@@ -166,12 +171,33 @@ func (c *Conn) Write(p []byte) (int, error) {
 		time.Sleep(200 * time.Microsecond)
 		c.mu.Lock()
 	}
+	if c.WriteLimit > 0 && c.outBytes+len(p) > c.WriteLimit {
+		n := c.WriteLimit - c.outBytes
+		if n < 0 {
+			n = 0
+		}
+		if n > 0 {
+			d := make([]byte, n)
+			copy(d, p[:n])
+			c.out = append(c.out, Chunk{Seq: c.Clock.Tick(), Data: d})
+			c.outBytes += n
+			c.cond.Broadcast()
+		}
+		return n, syscall.EPIPE
+	}
 	d := make([]byte, len(p))
 	copy(d, p)
 	c.out = append(c.out, Chunk{Seq: c.Clock.Tick(), Data: d})
 	c.outBytes += len(p)
 	c.cond.Broadcast()
 	return len(p), nil
+}
+
+// SetWriteLimit arms WriteLimit relative to what has been written so far.
+func (c *Conn) SetWriteLimit(more int) {
+	c.mu.Lock()
+	c.WriteLimit = c.outBytes + more
+	c.mu.Unlock()
 }
 
 func (c *Conn) Close() error {
